@@ -279,6 +279,25 @@ int main(void) {
             uint32_t c = carquet_crc32_update(carquet_crc32(a, k), b, n - k);
             printf("OK %x\n", c);
             free(a); free(b); free(base);
+        } else if (!strcmp(h_tok[0], "crcchain") && h_ntok == 3) {
+            /* crcchain <c1,c2,..|-> <data hex>: the buffer cut at the (ascending, possibly equal) offsets, every piece
+               an exact-size block, fed to carquet_crc32_update only, starting from state 0 */
+            size_t n; void* base;
+            uint8_t* p = h_unhex(h_tok[2], &n, 0, &base);
+            uint32_t c = 0; size_t prev = 0; const char* q = h_tok[1];
+            for (;;) {
+                size_t cut = n; int last = 1;
+                if (*q && *q != '-') { cut = (size_t)strtoul(q, (char**)&q, 10); last = 0; if (*q == ',') q++; else if (!*q) q = "-"; }
+                if (cut > n) cut = n;
+                if (cut < prev) cut = prev;
+                uint8_t* a = malloc(cut - prev ? cut - prev : 1);
+                memcpy(a, p + prev, cut - prev);
+                c = carquet_crc32_update(c, a, cut - prev);
+                free(a); prev = cut;
+                if (last) break;
+            }
+            printf("OK %x\n", c);
+            free(base);
         } else if (!strcmp(h_tok[0], "bloomnull") && h_ntok == 3) {
             do_bloom_null(h_tok[1], h_tok[2]);
         } else if (!strcmp(h_tok[0], "xxh") && h_ntok == 4) {
